@@ -59,14 +59,18 @@ type c16case struct {
 }
 
 func (c16) Gen(r *sim.Rand, c *sim.Case, tier string) {
-	g := &TGen{R: r.Fork(), Else: true, Nested: r.Bool(), Newlines: r.Chance(0.6), Hostile: r.Chance(0.5)}
+	g := &TGen{R: r.Fork(), Else: true, Nested: r.Bool(), Newlines: r.Chance(0.6), Hostile: r.Chance(0.5), VarRefs: r.Chance(0.4)}
 	if Wild {
 		g.HostileV = r.Bool()
 		g.LoopVarsInNested = true
 		g.MissingNested = true
 	}
+	inherit := r.Chance(0.25)
+	if inherit && !Wild {
+		g.VarRefs = false // the variable pass runs once per inheritance level: a value that mentions a placeholder is substituted again (listed finding)
+	}
 	cc := &c16case{Data: g.Data()}
-	if r.Chance(0.25) {
+	if inherit {
 		// inheritance: a base with blocks, a child that overrides some of them
 		var base []*TNode
 		nb := r.Range(1, 3)
@@ -344,6 +348,12 @@ func (c16) Exec(c *sim.Case, env *Env) []sim.Violation {
 	sfx := ""
 	synt := false
 	for _, v := range cc.Data.Vars {
+		// a top-level value that merely mentions a variable placeholder is inserted verbatim by the single-pass
+		// variable substitution; only directive syntax in it is re-scanned by the later passes
+		// (with inheritance the variable pass runs once per level, so even that is substituted again)
+		if sv, ok := v.(string); ok && !cc.Child && !strings.Contains(sv, "{{#") && !strings.Contains(sv, "{{/") && !strings.Contains(sv, "{{else") && !strings.Contains(sv, "{{this") && !strings.Contains(sv, "{{@") {
+			continue
+		}
 		synt = synt || valuesHaveSyntax(v)
 	}
 	for _, l := range cc.Data.Lists {
